@@ -14,6 +14,7 @@ import (
 	"go/ast"
 	"go/token"
 	"go/types"
+	"strings"
 
 	"golang.org/x/tools/go/ssa"
 )
@@ -148,6 +149,8 @@ func checkC10(w *World, r *Report) {
 	r.floor("block-definition presence tests on render paths", n, 3)
 
 	checkParentCallContext(w, r)
+	checkOverrideLookup(w, r)
+	checkResolvesThroughLoad(w, r, "R10.5", []string{"ExtendsNode"}, "a parent remembered from an earlier render is used although the parent name is an expression (or the engine would reload it): the child is laid out in the wrong parent")
 
 	// ---- R10.2
 	// the function that renders the parent: ExtendsNode.Render itself or a helper it calls
@@ -383,4 +386,130 @@ func (w *World) okVarOfBlockLookup(fd *ast.FuncDecl, o types.Object) bool {
 		return true
 	})
 	return found
+}
+
+// originsAll: every struct field a value can have been read from (all phi edges).
+func originsAll(v ssa.Value, depth int, seen map[ssa.Value]bool, out *[]fieldRef) {
+	if depth > 12 || seen[v] {
+		return
+	}
+	seen[v] = true
+	switch x := v.(type) {
+	case *ssa.UnOp:
+		if fa, ok := x.X.(*ssa.FieldAddr); ok {
+			t, f := fieldOfAddr(fa)
+			*out = append(*out, fieldRef{t, f})
+			return
+		}
+		originsAll(x.X, depth+1, seen, out)
+	case *ssa.IndexAddr:
+		originsAll(x.X, depth+1, seen, out)
+	case *ssa.Index:
+		originsAll(x.X, depth+1, seen, out)
+	case *ssa.Extract:
+		originsAll(x.Tuple, depth+1, seen, out)
+	case *ssa.Next:
+		originsAll(x.Iter, depth+1, seen, out)
+	case *ssa.Range:
+		originsAll(x.X, depth+1, seen, out)
+	case *ssa.Lookup:
+		originsAll(x.X, depth+1, seen, out)
+	case *ssa.Slice:
+		originsAll(x.X, depth+1, seen, out)
+	case *ssa.Phi:
+		for _, e := range x.Edges {
+			originsAll(e, depth+1, seen, out)
+		}
+	case *ssa.Alloc:
+		if x.Referrers() != nil {
+			for _, ref := range *x.Referrers() {
+				if st, ok := ref.(*ssa.Store); ok && st.Addr == x {
+					originsAll(st.Val, depth+1, seen, out)
+				}
+			}
+		}
+	case *ssa.Call:
+		// a helper of the package that selects the nodes: what it can return
+		if h := x.Call.StaticCallee(); h != nil && h.Pkg != nil && h.Pkg.Pkg.Path() == twigPath && len(h.Blocks) > 0 {
+			instrsOf(h, func(in ssa.Instruction) {
+				if ret, ok := in.(*ssa.Return); ok {
+					for _, rv := range retResults(ret) {
+						originsAll(rv, depth+1, seen, out)
+					}
+				}
+			})
+		}
+	case *ssa.FieldAddr:
+		t, f := fieldOfAddr(x)
+		*out = append(*out, fieldRef{t, f})
+	}
+}
+
+// checkOverrideLookup (R10.4): wherever a block's own body (BlockNode.body) can be what is
+// rendered, every path to that render has consulted the effective block table (a lookup in
+// RenderContext.blocks): the default body is only ever the fallback of a failed lookup, in
+// whatever kind of render (plain, extending, inside parent()).
+func checkOverrideLookup(w *World, r *Report) {
+	n := 0
+	for _, fn := range w.pkgFuncs() {
+		var sites []ssa.Instruction
+		instrsOf(fn, func(in ssa.Instruction) {
+			c, ok := in.(ssa.CallInstruction)
+			if !ok || !c.Common().IsInvoke() || c.Common().Method.Name() != "Render" || !isNamed(c.Common().Value.Type(), twigPath, "Node") {
+				return
+			}
+			var os []fieldRef
+			originsAll(c.Common().Value, 0, map[ssa.Value]bool{}, &os)
+			for _, o := range os {
+				if o.typ == "BlockNode" && o.field == "body" {
+					sites = append(sites, in)
+					return
+				}
+			}
+		})
+		for _, site := range sites {
+			n++
+			var isLookup func(in ssa.Instruction) bool
+			lookupSummary := map[*ssa.Function]int{} // 1 = in progress / no, 2 = yes
+			isLookup = func(in ssa.Instruction) bool {
+				if lk, ok := in.(*ssa.Lookup); ok {
+					_, ok = fieldLoad(lk.X, "RenderContext", "blocks")
+					return ok
+				}
+				// a helper every path of which consults the block table before returning
+				c, ok := in.(*ssa.Call)
+				if !ok {
+					return false
+				}
+				h := c.Call.StaticCallee()
+				if h == nil || h.Pkg == nil || h.Pkg.Pkg.Path() != twigPath || len(h.Blocks) == 0 {
+					return false
+				}
+				if st, done := lookupSummary[h]; done {
+					return st == 2
+				}
+				lookupSummary[h] = 1
+				all, nret := true, 0
+				instrsOf(h, func(hi ssa.Instruction) {
+					if _, isRet := hi.(*ssa.Return); isRet {
+						nret++
+						if bad, _ := existsPathAvoiding(h, hi, isLookup, nil); bad {
+							all = false
+						}
+					}
+				})
+				if all && nret > 0 {
+					lookupSummary[h] = 2
+				}
+				return lookupSummary[h] == 2
+			}
+			construct := "a block's own body is rendered only after the block table was consulted"
+			if bad, path := existsPathAvoiding(fn, site, isLookup, nil); bad {
+				r.bad("R10.4", ssaName(fn), construct, w.posOf(site.Pos()), "a path renders the block's default body without looking the block up in the effective block table (path "+strings.Join(path, " → ")+"): an override — also an empty one, also inside the body produced by parent() — is ignored on that path")
+			} else {
+				r.ok("R10.4", ssaName(fn), construct, w.posOf(site.Pos()), "every path to the render passes a lookup in ctx.blocks", true)
+			}
+		}
+	}
+	r.floor("render sites of a block's own body", n, 1)
 }
